@@ -23,6 +23,7 @@ type Engine struct {
 	globalLit map[*ssa.Global]*globalFacts
 	modsets   map[*ssa.Function]map[string]bool
 	modsetsM  map[*ssa.Function]*ModSet
+	prov      *provAnalysis
 	implCache map[string][]*ssa.Function
 	specFuncs map[string]func(ev *Env, e *ECall) Value
 	funcIDs   map[string]int
